@@ -217,6 +217,12 @@ class Run:
         self.go(loop.time() + 30)
         if not t.done():
             obs.violations.append(('shutdown_completes', ['pending'], None))
+        # a later disconnect() of a connection that was reported CLOSED is a no-op (anything it reports is seen by the clauses)
+        late = [x for x in obs.conns.values() if isinstance(x, DataConnection) and any(s_ == ConnectionState.CLOSED for s_ in obs.states(x))]
+        for x in late:
+            loop.spawn(x.disconnect(CloseReason.REQUESTED), name='late-disconnect')
+        if late:
+            self.go(loop.time() + 10)
         # exactly once per life (a life ends with CLOSED; only the server connection starts another one with CONNECTING)
         for conn in obs.conns.values():
             st = obs.states(conn)
@@ -509,7 +515,7 @@ TAILS = ('none', 'frames_eof', 'frames_batch', 'handler_disconnects', 'eof', 'eo
 INJECTS = ('none', 'disconnect', 'double', 'net_disconnect', 'send', 'remote_eof', 'remote_reset')
 
 
-def h_incoming(c, port, first, tail='none', inject='none', n_any=0, slow='none', pace='now', queued='none'):
+def h_incoming(c, port, first, tail='none', inject='none', n_any=0, slow='none', pace='now', queued='none', initl='instant'):
     obf_port = port == 'obf'
     sig = ['incoming', port, first if not first.startswith('any') else 'any', tail]
     loop = VLoop()
@@ -520,6 +526,7 @@ def h_incoming(c, port, first, tail='none', inject='none', n_any=0, slow='none',
             W.start()
             net, obs = W.net, W.obs
             obs.slow_states = slow == 'states'
+            obs.init_mode = initl
             R = Run(c, loop, W, st)
             # ---- pending indirect attempts (their direct attempt is refused first) ---------------------------
             n_pending = {'pierce_0': 0, 'pierce_1': 1, 'pierce_2': 2, 'pierce_match': 1, 'any': 1}.get(first, 0)
@@ -620,7 +627,7 @@ def h_incoming(c, port, first, tail='none', inject='none', n_any=0, slow='none',
 
             # ---- the data-decided clause: judged at the first idle moment after the whole frame arrived -------
             def judge():
-                if R.fired or first == 'silence':
+                if R.fired or first == 'silence' or initl != 'instant':
                     return
                 x = wire.owner
                 if x is None:
@@ -896,7 +903,9 @@ META = {
                    'At every loop callback the observer checks: reports strictly forward, nothing after CLOSED except server '
                    'CLOSED->CONNECTING, no delivery while CLOSED, no transport write accepted after CLOSED; at every idle moment: registry == '
                    '{transport open or attempt pending} per the fakes (not per Connection.state); after a final Network.disconnect(): CLOSED '
-                   'exactly once per reported connection (server: per life).',
+                   'exactly once per reported connection (server: per life); then one more disconnect() on every Data connection that was reported CLOSED '
+                   'must report nothing.  The PeerInitializedEvent listener that on_peer_accepted awaits before accept() reports CONNECTED is a '
+                   'discriminant (instant / suspends / disconnects / reads the transfer ticket) with all environment events offered meanwhile.',
     'functions': [ListeningConnection.accept, ListeningConnection.connect, ListeningConnection.disconnect, Connection.set_state,
                   DataConnection.connect, DataConnection.disconnect, DataConnection._message_reader_loop, DataConnection._read,
                   DataConnection._read_message, DataConnection.receive_message, DataConnection.receive_message_object,
@@ -932,6 +941,9 @@ META = {
     'discriminants': ['listening port (plain / obfuscated)', 'first-frame kind (15) and body length', 'TCP segmentation of the first frame (2)',
                       'pace of the first frame: at once / after 20 s of silence / 5 s of silence then 3 pieces 5 s apart (the accepted, not yet '
                       'initialised socket is observed at every idle moment and hit by every injected action in between)',
+                      'what the PeerInitializedEvent listener awaited by on_peer_accepted does for an accepted connection: instant / suspends 1 or 3 '
+                      'loop turns / suspends 2 s / disconnects the connection / reads the transfer ticket (F) - with every injected action and '
+                      'scripted remote event offered while it is pending',
                       'end kind of an established connection (15)', 'messages pending in queue_message() tasks when it ends: none / 1 or 2 with '
                       'stalled writes / 2 with slow writes / 1 whose write fails (payload symbolic)', 'kind of the injected concurrent action (7 + cancel + pierce) and the loop step '
                       'at which it happens (every step of the scenario)', 'way of opening (direct plain / obfuscated with fixed or symbolic port / address lookup / server request), '
@@ -987,7 +999,7 @@ def jobs(tier):
             add('incoming', h_incoming, {'port': port, 'first': first}, req, 10)
 
     # ---- H1b: ways an accepted connection ends x injected concurrent action --------------------------------------------
-    def inc(port, first, t, i, slow='none', queued='none'):
+    def inc(port, first, t, i, slow='none', queued='none', initl='instant'):
         typ = 'P' if first in ('init_ticket8', 'pierce_match') else first[-1] if first in FIRST_VALID else None
         if t != 'none' and first not in FIRST_VALID:
             return
@@ -1001,7 +1013,53 @@ def jobs(tier):
         if queued != 'none':
             params['queued'] = queued
             req = req + ['messages_queued']
+        if initl != 'instant':
+            if typ is None or (initl == 'reads' and typ != 'F'):
+                return
+            params['initl'] = initl
+            req = [r for r in req if r not in ('scenario_delivers_messages',)]
+            closes = (initl == 'disconnects' or (initl == 'reads' and t in ('eof', 'reset', 'local', 'net_disconnect'))
+                      or (initl == 'suspend_long' and (t in ('local', 'net_disconnect') or (t in ('eof', 'reset') and typ != 'F'))))
+            if closes and i == 'none' and slow == 'none':
+                req = req + ['closed_while_init_listener_pending']
         add('incoming', h_incoming, params, req, 300 if i == 'double' else 60 if i != 'none' else 2)
+
+    # ---- H1c: what the PeerInitializedEvent listener does while on_peer_accepted awaits it x environment events -------------
+    SUSP = ('suspend1', 'suspend3', 'suspend_long')
+    ENV = ('none', 'remote_eof', 'remote_reset', 'net_disconnect', 'disconnect')
+    if quick:
+        for first in ('init_P', 'init_D', 'init_F'):
+            for il in SUSP:
+                for i in ENV[1:]:
+                    inc('plain', first, 'none', i, initl=il)
+            for t in ('eof', 'reset', 'local', 'net_disconnect'):
+                inc('plain', first, t, 'none', initl='suspend_long')
+            for i in ('none', 'net_disconnect', 'remote_eof'):
+                inc('plain', first, 'none', i, initl='disconnects')
+        for t in ('eof', 'reset', 'none', 'net_disconnect', 'local'):
+            inc('plain', 'init_F', t, 'none', initl='reads')
+        for i in ENV[1:]:
+            inc('plain', 'init_F', 'none', i, initl='reads')
+        inc('obf', 'init_P', 'eof', 'none', initl='suspend_long')
+        inc('obf', 'init_F', 'eof', 'none', initl='reads')
+        inc('obf', 'init_D', 'none', 'remote_eof', initl='disconnects')
+        inc('obf', 'init_D', 'none', 'remote_reset', initl='suspend3')
+        inc('plain', 'pierce_match', 'eof', 'none', initl='suspend_long')
+        inc('plain', 'pierce_match', 'none', 'net_disconnect', initl='suspend1')
+        inc('plain', 'init_P', 'eof', 'none', 'states', initl='suspend_long')
+    else:
+        for port in ('plain', 'obf'):
+            for first in ('init_P', 'init_D', 'init_F', 'pierce_match', 'init_ticket8'):
+                for il in SUSP + ('disconnects', 'reads'):
+                    for i in ENV + ('double', 'send'):
+                        inc(port, first, 'none', i, initl=il)
+                    for t in ('eof', 'reset', 'local', 'net_disconnect', 'eof_mid_frame', 'send_reset', 'frames_batch', 'local_twice'):
+                        for i in ('none', 'disconnect', 'remote_reset'):
+                            inc(port, first, t, i, initl=il)
+                    if port == 'plain':
+                        for t in ('none', 'eof', 'reset'):
+                            inc(port, first, t, 'remote_eof', 'states', initl=il)
+
     def paced(port, first, pace, i, n_any=None):
         params = {'port': port, 'first': first, 'inject': i, 'pace': pace}
         if n_any is not None:
